@@ -153,12 +153,13 @@ func init() {
 			{Pkg: "app", Entry: "H_C18_usage", Witnesses: []string{"C18.usage"}, Solver: "cvc5"},
 			{Pkg: "app", Entry: "H_C18_usage_exact", Witnesses: []string{"C18.usage.exact"}, Solver: "cvc5",
 				Quick: tierCfg{Params: map[string]int{"bits": 10}}, Thorough: tierCfg{Params: map[string]int{"bits": 14}, SolverMs: 600000}},
+			{Pkg: "config", Entry: "H_C18_config", Witnesses: []string{"C18.config.valid", "C18.config.rejected"}, Solver: "cvc5"},
 			{Pkg: "app", Entry: "H_C18_decision", Witnesses: []string{"C18.ro", "C18.rw", "C18.untouched"},
 				Quick: tierCfg{Params: map[string]int{"max_replicas": 2, "faults": 0}}},
 			{Pkg: "app", Entry: "H_C18_decision_faults", Witnesses: []string{"C18.faulted"},
 				Quick: tierCfg{Params: map[string]int{"max_replicas": 1, "faults": 1}}, Thorough: tierCfg{Params: map[string]int{"max_replicas": 3, "faults": 1}}},
 		},
-		Encoded: []string{"(*app.App).repairReadOnlyOnMaster", "(app/node_state.DiskState).Usage", "(*mysql.Node).SetWritable", "(*mysql.Node).setReadonlyWithTimeout", "(*app.appDCS).SetLowSpace"},
+		Encoded: []string{"(*config.Config).Validate", "(*config.Config).SetDynamicDefaults", "(*app.App).repairReadOnlyOnMaster", "(app/node_state.DiskState).Usage", "(*mysql.Node).SetWritable", "(*mysql.Node).setReadonlyWithTimeout", "(*app.appDCS).SetLowSpace"},
 		Assumptions: append([]string{
 			"thresholds are arbitrary non-NaN floats with not_critical <= critical (Config.Validate); per-host usage is an arbitrary non-NaN float — the contract of DiskState.Usage, itself decided over all uint64 pairs by H_C18_usage (assume/guarantee)",
 			"H_C18_usage_exact: Usage() against exact integer arithmetic at the half-percent thresholds k/2 for k in {1,100,181,191,199,200}, used <= total < 2^10 (thorough 2^14); larger disk sizes and other thresholds are outside this obligation (the FP division is the solver's limit: 2^20 returned unknown after 5 min in z3 and cvc5)",
